@@ -5,7 +5,8 @@ from common import TranslatorAbort, coq_list
 from nslgen import *
 
 STATIC = ["Model/IR.v", "Model/VM.v", "Model/PyTree.v", "Proofs/HistoryProofs.v", "Spec/RefSem.v", "Proofs/HistoryRefineProofs.v", "Proofs/HistoryExample.v", "Harness/HistLib.v",
-          "Proofs/HistoryFlowProofs.v", "Proofs/HistoryFlowExample.v", "Harness/HistLib2.v"]
+          "Proofs/HistoryFlowProofs.v", "Proofs/HistoryFlowExample.v", "Harness/HistLib2.v",
+          "Proofs/HistoryLoopProofs.v", "Proofs/LoopOptExample.v", "Harness/HistLib3.v"]
 
 
 def aggregate_programs():
@@ -155,6 +156,17 @@ def run(ctx):
                 c["globals"] = {"g0": rng.randrange(-3, 4)}
             calls.append(c)
         cases.append(("conditionals", m, calls))
+    for (m, cl, text) in c01.loop_programs(ctx, 20 if ctx.tier == "quick" else 400):
+        fname, params = [(it["n"], it["args"]) for it in m["items"] if it["k"] == "func"][0]
+        calls = [{"vm": vmid, "fn": fname, "args": {a_["n"]: (1 if a_["t"] == "int" else 0.5) for a_ in params}, "globals": {"g0": rng.randrange(-3, 4), "g1": rng.choice([0.5, 1.25])}, "read_globals": ["g0", "g1"]}
+                 for vmid in (0, 1)]
+        for _ in range(rng.randint(*hist_len)):
+            c = {"vm": rng.choice([0, 0, 1]), "fn": fname, "args": {a_["n"]: (rng.randrange(-6, 9) if a_["t"] == "int" else rng.choice([0.5, -1.25, 3.0, 0.1, 7.5])) for a_ in params},
+                 "globals": {}, "read_globals": ["g0", "g1"]}
+            if rng.random() < 0.1:
+                c["globals"] = {"g0": rng.randrange(-3, 4)}
+            calls.append(c)
+        cases.append(("loops", m, calls))
     for k in range(40 if ctx.tier == "quick" else 1200):
         g = gentyped.TGen(rng, floats=True, arrays=True, structs=(k % 2 == 0), calls=(k % 3 == 0), max_depth=2)
         m, exported, globs = g.module()
@@ -194,16 +206,24 @@ def run(ctx):
             expr = "(%s + 1000 * hist_case M_%d)" % (expr, k)
         elif name == "conditionals":
             expr = "(%s + 1000 * (100000 + hist_case2 M_%d))" % (expr, k)
+        elif name == "loops":
+            expr = "(%s + 1000 * (200000 + hist_case3 M_%d))" % (expr, k)
         blocks.append((defs, expr)); meta.append((name, j["src"], calls, r))
     files = vmcases.write_case_files(ctx, "C15", blocks, per=6)
     outs = ctx.eval_cases(files, timeout=900)
     codes = vmcases.collect_codes(ctx, files, outs, len(blocks), per=6)
     hfrag = {"programs": 0, "programs_inside_proved_fragment": 0, "exported_functions": 0, "functions_passing_the_test": 0}
     cfrag = {"programs": 0, "programs_inside_proved_fragment": 0, "exported_functions": 0, "functions_passing_the_test": 0}
+    wfrag = {"programs": 0, "programs_inside_proved_fragment": 0, "exported_functions": 0, "functions_passing_the_test": 0}
     for n_, c in enumerate(codes):
         if c is not None and c >= 1000:
             hc = c // 1000
             codes[n_] = c % 1000
+            if hc >= 200000:
+                hc -= 200000
+                wfrag["programs"] += 1; wfrag["programs_inside_proved_fragment"] += 1 if hc >= 10000 else 0
+                wfrag["exported_functions"] += (hc % 10000) // 100; wfrag["functions_passing_the_test"] += hc % 100
+                continue
             if hc >= 100000:
                 hc -= 100000
                 cfrag["programs"] += 1; cfrag["programs_inside_proved_fragment"] += 1 if hc >= 10000 else 0
@@ -222,7 +242,7 @@ def run(ctx):
                        "structs) updated in place and accumulated into globals, a program keeping an array and counters in globals, a program of recursive functions that keep an argument, a local and a local array alive across the recursive call, programs of straight-line functions over two globals (the fragment of the history refinement theorem; its decidable hypotheses are tested inside Coq per program), and random programs of the C01 generator; observations "
                        "compared step by step inside Coq with per-VM states of the heap VM model and of the reference state machine. Non-trivial: every history; distinct by content." % hist_len)
     ctx.cov["samples"] = [{"program": n, "history_prefix": c[:4], "impl_prefix": r["calls"][:4]} for n, t, c, r in meta[:2]]
-    ctx.extra["input_distribution"] = {"straight_line_programs": hfrag, "conditional_programs": cfrag, "histories": len(cases), "operations": nops, "spec_skipped": sum(1 for c in codes if c is not None and c & 8), "model_skipped": sum(1 for c in codes if c is not None and c & 4)}
+    ctx.extra["input_distribution"] = {"straight_line_programs": hfrag, "conditional_programs": cfrag, "loop_programs": wfrag, "histories": len(cases), "operations": nops, "spec_skipped": sum(1 for c in codes if c is not None and c & 8), "model_skipped": sum(1 for c in codes if c is not None and c & 4)}
     ctx.extra["disagreements_checked"] = len(codes)
     if bad_spec or direct_bad:
         if bad_spec:
